@@ -40,7 +40,9 @@ package skiplist
 //@ inline
 
 //@ axiom sl-globals: MinItem == nil && MaxItem == 18446744073709551615
-//@ ufun cmpf(fn ref, a ref, b ref) int
+// cmpf is the result of calling comparator closure fn on (a, b) in the current state: the callback may read the
+// item headers that the nitro layer mutates, so the function symbol also depends on those heaps.
+//@ ufun cmpf(fn ref, a ref, b ref) int reads nitro.Item.bornSn nitro.Item.deadSn
 //@ callback-type skiplist.CompareFn(fn ref, a ref, b ref) r int
 //@ pure-call
 //@ ensures r == cmpf(fn, a, b)
@@ -644,3 +646,55 @@ package skiplist
 //@ loop 2 invariant[prepared] (forall l int {x.nx[l]} :: 0 <= l && l < i ==> x.nx[l] == buf.succs[l]) && (forall l int {x.del[l]} :: !x.del[l])
 //@ loop 3 invariant[ctx] x != nil && x.mine && buf != nil && sts != nil && s != nil && 0 <= itemLevel && itemLevel <= 32 && len(buf.preds) == 33 && len(buf.succs) == 33 && 1 <= i
 //@ loop 4 invariant[ctx] x != nil && x.mine && buf != nil && sts != nil && s != nil && 0 <= itemLevel && itemLevel <= 32 && len(buf.preds) == 33 && len(buf.succs) == 33 && 1 <= i && i <= itemLevel
+
+// ---------------------------------------------------------------------------
+// L1 (assumed): sequential contracts of insert and delete on the ghost chain. Insert4/softDelete/findPath loops
+// are not verified; these contracts are what "modulo L1" refers to. buf.pos is a ghost out-parameter.
+// ---------------------------------------------------------------------------
+
+//@ ufun insAt(a [int]ref, p int, x ref) [int]ref
+//@ axiom insAt-def: forall a [int]ref, p int, x ref, i int {insAt(a, p, x)[i]} :: insAt(a, p, x)[i] == ite(i < p, a[i], ite(i == p, x, a[i - 1]))
+//@ ufun delAt(a [int]ref, p int) [int]ref
+//@ axiom delAt-def: forall a [int]ref, p int, i int {delAt(a, p)[i]} :: delAt(a, p)[i] == ite(i < p, a[i], a[i + 1])
+
+//@ func (*Skiplist).Insert2
+//@ trusted L1 assumption: sequential behaviour of the lock-free insert (Insert3/Insert4, findPath); with user-managed memory the rejected node block is freed internally
+//@ requires wfChain(s) && buf != nil && len(buf.preds) >= 1 && len(buf.succs) >= 1 && monotone(s, inscmp, itm) && itm != MinItem && itm != MaxItem && sts != nil
+//@ modifies buf.pos, elems(buf.preds), elems(buf.succs), s.phys, s.n, heap(Node.$nx), heap(Node.$del), s.level, heap($alive), heap($brk), mem(int32)
+//@ modifies sts.nodeAllocs, sts.usedBytes, sts.levelNodesCount, sts.insertConflicts, sts.readConflicts
+//@ ensures 0 <= buf.pos && buf.pos <= old(s.n) && (forall i int {old(s.phys[i])} :: 0 <= i && i < buf.pos ==> cmpf(inscmp, old(s.phys[i]).itm, itm) < 0) && (buf.pos < old(s.n) ==> cmpf(inscmp, old(s.phys)[buf.pos].itm, itm) >= 0)
+//@ ensures[exact] buf.pos < old(s.n) && cmpf(inscmp, old(s.phys)[buf.pos].itm, itm) == 0 ==> !result1 && result0 == old(s.phys)[buf.pos] && s.n == old(s.n) && s.phys == old(s.phys)
+//@ ensures[pred] !(buf.pos < old(s.n) && cmpf(inscmp, old(s.phys)[buf.pos].itm, itm) == 0) && eqCmp != nil && buf.pos > 0 && cmpf(eqCmp, itm, old(s.phys)[buf.pos - 1].itm) == 0 ==>
+//@     !result1 && result0 == old(s.phys)[buf.pos - 1] && s.n == old(s.n) && s.phys == old(s.phys)
+//@ ensures[insert] !(buf.pos < old(s.n) && cmpf(inscmp, old(s.phys)[buf.pos].itm, itm) == 0) && !(eqCmp != nil && buf.pos > 0 && cmpf(eqCmp, itm, old(s.phys)[buf.pos - 1].itm) == 0) ==>
+//@     result1 && result0 != nil && result0 >= old(brk()) && result0.itm == itm && result0.Link == nil && s.n == old(s.n) + 1 && s.phys == insAt(old(s.phys), buf.pos, result0)
+//@ ensures wfChain(s)
+
+//@ func (*Skiplist).DeleteNode
+//@ trusted L1 assumption: sequential behaviour of softDelete + unlinking search; succeeds iff the node is an unmarked member of the chain
+//@ requires wfChain(s) && n != nil && buf != nil && sts != nil
+//@ modifies buf.pos, elems(buf.preds), elems(buf.succs), s.phys, s.n, heap(Node.$nx), heap(Node.$del), mem(int32)
+//@ modifies sts.softDeletes, sts.usedBytes, sts.levelNodesCount, sts.readConflicts
+//@ ensures result <==> (exists i int {old(s.phys[i])} :: 0 <= i && i < old(s.n) && old(s.phys[i]) == n)
+//@ ensures result ==> 0 <= buf.pos && buf.pos < old(s.n) && old(s.phys)[buf.pos] == n && s.n == old(s.n) - 1 && s.phys == delAt(old(s.phys), buf.pos)
+//@ ensures !result ==> s.n == old(s.n) && s.phys == old(s.phys)
+//@ ensures wfChain(s)
+
+//@ func (*Iterator).SeekWithCmp
+//@ props C02
+//@ use sl-globals
+//@ requires physItemsOK(it.s) && it.s.head.itm == MinItem
+//@ requires it != nil && wfChain(it.s) && it.buf != nil && len(it.buf.preds) >= 1 && len(it.buf.succs) >= 1 && monotone(it.s, cmp, itm) && itm != MinItem && itm != MaxItem
+//@ modifies it.prev, it.curr, it.buf.pos, elems(it.buf.preds), elems(it.buf.succs), it.s.Stats.readConflicts
+//@ ensures[pos] 0 <= it.buf.pos && it.buf.pos <= it.s.n && (forall i int {it.s.phys[i]} :: 0 <= i && i < it.buf.pos ==> below(it.s, cmp, itm, i)) && (it.buf.pos < it.s.n ==> !below(it.s, cmp, itm, it.buf.pos))
+//@ ensures[exact] it.buf.pos < it.s.n && cmpf(cmp, it.s.phys[it.buf.pos].itm, itm) == 0 ==> result && it.curr == it.s.phys[it.buf.pos]
+//@ ensures[pred] !(it.buf.pos < it.s.n && cmpf(cmp, it.s.phys[it.buf.pos].itm, itm) == 0) && eqCmp != nil && it.buf.pos > 0 && cmpf(eqCmp, itm, it.s.phys[it.buf.pos - 1].itm) == 0 ==> result && it.curr == it.s.phys[it.buf.pos - 1]
+//@ ensures[none] !(it.buf.pos < it.s.n && cmpf(cmp, it.s.phys[it.buf.pos].itm, itm) == 0) && !(eqCmp != nil && it.buf.pos > 0 && cmpf(eqCmp, itm, it.s.phys[it.buf.pos - 1].itm) == 0) ==> !result
+//@ nopanic
+
+// Sequential view of handing an unlinked object to the reclamation protocol (the protocol itself: C16/C17).
+//@ ghost global handed [ref]int
+//@ func (*AccessBarrier).FlushSession
+//@ trusted sequential view: the reference is handed to the barrier protocol once per call (protocol verified separately: C16)
+//@ modifies handed[ref]
+//@ ensures handed[ref] == old(handed[ref]) + 1
